@@ -20,21 +20,28 @@ Import ListNotations.
 Local Open Scope N_scope.
 
 (* ------------------------------------------------------------------ variables and scopes *)
-Record var := mkVar {
+Record var := mkVar10 {
   v_name : name; v_loc : loc;
   v_used : bool;                 (* IsUse *)
   v_close : bool;                (* IsClose *)
   v_rfunc : bool;                (* ReferFunc != nil *)
   v_refer : option exp;          (* ReferExp *)
   v_empty : bool;                (* IsExpEmpty *)
-  v_noassign : list loc          (* NoUseAssignLocs *)
+  v_noassign : list loc;         (* NoUseAssignLocs *)
+  v_init : option loc;           (* InitLoc (since fixes/C05-own-initialiser.diff): the rest of the `local` statement *)
+  v_tab : option loc             (* InitTableLoc: the table constructor that initialises the variable *)
 }.
+Notation mkVar n l u c f r e a := (mkVar10 n l u c f r e a None None).
 Definition scope := list var.     (* newest first *)
 Definition stack := list scope.   (* innermost first *)
 
 (* VarInfo.IsCorrectPosition *)
 Definition correct_position (v : var) (l : loc) : bool :=
   if negb (loc_before (v_loc v) l) then false else
+  if (match v_init v with
+      | Some il => loc_contains il l && negb (match v_tab v with Some tl => loc_contains tl l | None => false end)
+      | None => false
+      end) then false else
   match v_refer v with
   | Some (EFunc _ _ _ _ _ fl _ _) => if loc_contains fl (v_loc v) then true else negb (loc_contains fl l)
   | Some (EName _ nl) => negb (loc_contains nl l)
@@ -77,12 +84,13 @@ Fixpoint adds (ns : list name) (ls : list loc) : list action :=
   end.
 
 (* variables created by cgLocalVarDeclStat for the names beyond the initialisers *)
-Fixpoint local_rest (ns : list name) (ls : list loc) (ats : list attr) (lastcall : option exp) : list action :=
+Fixpoint local_rest (il : option loc) (ns : list name) (ls : list loc) (ats : list attr) (lastcall : option exp)
+  : list action :=
   match ns, ls, ats with
   | n :: ns', l :: ls', a :: ats' =>
-    AAdd (mkVar n l false (match a with AttrClose => true | _ => false end) false lastcall
-                (match lastcall with Some _ => false | None => true end) [])
-    :: local_rest ns' ls' ats' lastcall
+    AAdd (mkVar10 n l false (match a with AttrClose => true | _ => false end) false lastcall
+                (match lastcall with Some _ => false | None => true end) [] il None)
+    :: local_rest il ns' ls' ats' lastcall
   | _, _, _ => []
   end.
 
@@ -99,21 +107,21 @@ Fixpoint local_visited (ns : list name) (ls : list loc) (ats : list attr) (es : 
   | [] => []
   end.
 
-Fixpoint local_add_acts (ns : list name) (ls : list loc) (ats : list attr) (es : list exp) {struct es}
-  : list action :=
+Fixpoint local_add_acts (il : option loc) (ns : list name) (ls : list loc) (ats : list attr) (es : list exp)
+  {struct es} : list action :=
   match es with
   | e :: es' =>
     match ns, ls, ats with
     | n :: ns', l :: ls', a :: ats' =>
-      let v := mkVar n l false (match a with AttrClose => true | _ => false end) (is_func_exp e) (Some e)
-                     (local_refer_empty n e) [] in
+      let v := mkVar10 n l false (match a with AttrClose => true | _ => false end) (is_func_exp e) (Some e)
+                       (local_refer_empty n e) [] il (Scope.tab_of_exp e) in
       match es' with
-      | [] => AAdd v :: local_rest ns' ls' ats' (if is_call_exp e then Some e else None)
-      | _ => AAdd v :: local_add_acts ns' ls' ats' es'
+      | [] => AAdd v :: local_rest il ns' ls' ats' (if is_call_exp e then Some e else None)
+      | _ => AAdd v :: local_add_acts il ns' ls' ats' es'
       end
     | _, _, _ => []
     end
-  | [] => local_rest ns ls ats None
+  | [] => local_rest il ns ls ats None
   end.
 
 (* conditions and blocks of an `if` statement alternate: cond1, block1, cond2, block2, ... *)
@@ -201,7 +209,7 @@ with tr_stat (s : stat) (flv slv : N) (g : ign) {struct s} : list action * ign :
   | SAssign vars es _ =>
     (* for every variable: its expression (if any) is visited, then the variable is resolved; surplus expressions last *)
     assign_thread flv slv vars (map (fun e => (e, fun g0 => tr_exp e None flv g0)) es) g
-  | SLocal ns ls ats es _ =>
+  | SLocal ns ls ats es l =>
     (* all the initialisers first, then the names (before fixes/C07-multi-local-order.diff: name i right after
        initialiser i, so a later initialiser saw the earlier names of the statement) *)
     let (a1, g1) :=
@@ -217,7 +225,7 @@ with tr_stat (s : stat) (flv slv : N) (g : ign) {struct s} : list action * ign :
              end
            | [] => ([], g)
            end) ns ls ats es g in
-    (a1 ++ local_add_acts ns ls ats es, g1)
+    (a1 ++ local_add_acts (Scope.init_loc ns ls es l) ns ls ats es, g1)
   | SLocalFunc n nl f _ =>
     let (a, g1) := tr_exp f None flv g in
     (AAdd (mkVar n nl false false true (Some f) false []) :: a, g1)
@@ -301,7 +309,8 @@ with tr_stat_fx (s : stat) (flv slv : N) (g : ign) {struct s} : list action * ig
   | SAssign vars es _ =>
     (* for every variable: its expression (if any) is visited, then the variable is resolved; surplus expressions last *)
     assign_thread flv slv vars (map (fun e => (e, fun g0 => tr_exp_fx e None flv g0)) es) g
-  | SLocal ns ls ats es _ =>
+  | SLocal ns ls ats es l =>
+    let il := if Scope.bf_own_init fx then Scope.init_loc ns ls es l else None in
     if Scope.bf_multi_local fx then
     (* all the initialisers first, then the names (before fixes/C07-multi-local-order.diff: name i right after
          initialiser i, so a later initialiser saw the earlier names of the statement) *)
@@ -318,7 +327,7 @@ with tr_stat_fx (s : stat) (flv slv : N) (g : ign) {struct s} : list action * ig
                end
              | [] => ([], g)
              end) ns ls ats es g in
-      (a1 ++ local_add_acts ns ls ats es, g1)
+      (a1 ++ local_add_acts il ns ls ats es, g1)
     else
       (fix go (ns : list name) (ls : list loc) (ats : list attr) (es : list exp) (g : ign) {struct es} : list action * ign :=
          match es with
@@ -326,15 +335,15 @@ with tr_stat_fx (s : stat) (flv slv : N) (g : ign) {struct s} : list action * ig
            let (a1, g1) := tr_exp_fx e None flv g in
            match ns, ls, ats with
            | n :: ns', l :: ls', a :: ats' =>
-             let v := mkVar n l false (match a with AttrClose => true | _ => false end) (is_func_exp e) (Some e)
-                            (local_refer_empty n e) [] in
+             let v := mkVar10 n l false (match a with AttrClose => true | _ => false end) (is_func_exp e) (Some e)
+                              (local_refer_empty n e) [] il (Scope.tab_of_exp e) in
              match es' with
-             | [] => (a1 ++ AAdd v :: local_rest ns' ls' ats' (if is_call_exp e then Some e else None), g1)
+             | [] => (a1 ++ AAdd v :: local_rest il ns' ls' ats' (if is_call_exp e then Some e else None), g1)
              | _ => let (a2, g2) := go ns' ls' ats' es' g1 in (a1 ++ AAdd v :: a2, g2)
              end
            | _, _, _ => (a1, g1)            (* i >= nNames: break, the remaining expressions are never visited *)
            end
-         | [] => (local_rest ns ls ats None, g)
+         | [] => (local_rest il ns ls ats None, g)
          end) ns ls ats es g
   | SLocalFunc n nl f _ =>
     let (a, g1) := tr_exp_fx f None flv g in
@@ -386,13 +395,15 @@ Section Machine.
     end.
 
   Definition mark (v : var) : var :=
-    mkVar (v_name v) (v_loc v) true (v_close v) (v_rfunc v) (v_refer v) (v_empty v) (v_noassign v).
+    mkVar10 (v_name v) (v_loc v) true (v_close v) (v_rfunc v) (v_refer v) (v_empty v) (v_noassign v)
+            (v_init v) (v_tab v).
 
   (* cgAssignStat on a local that was found: re-point an empty value, remember the assignment while unused *)
   Definition assign_to (l : loc) (rhs : option exp) (v : var) : var :=
     let r := repoint (v_name v) rhs (v_refer v, v_empty v) in
-    mkVar (v_name v) (v_loc v) (v_used v) (v_close v) (v_rfunc v) (fst r) (snd r)
-          (if negb (v_used v) && negb (loc_initial l) then v_noassign v ++ [l] else v_noassign v).
+    mkVar10 (v_name v) (v_loc v) (v_used v) (v_close v) (v_rfunc v) (fst r) (snd r)
+            (if negb (v_used v) && negb (loc_initial l) then v_noassign v ++ [l] else v_noassign v)
+            (v_init v) (v_tab v).
 
   Definition add_var (v : var) (st : stack) : stack :=
     match st with sc :: r => (v :: sc) :: r | [] => [[v]] end.
